@@ -55,6 +55,10 @@ def _load():
         return
     _loaded[0] = True
     import native_jobs  # noqa: F401  (registers through native())
+    import glob
+    import importlib
+    for f in sorted(glob.glob(os.path.join(HERE, 'lib', 'native_jobs_*.py'))):
+        importlib.import_module(os.path.basename(f)[:-3])
 
 
 # ------------------------------------------------------------------ native batch
